@@ -91,6 +91,19 @@ func jarCorpus(je *jarEngine) {
 		run("root-path-forms-set-then-response-"+f.name, opSet("SetByHost", "h1.test", withPath(jc("np1"), f.first)),
 			opCycle("h1.test", "/", withPath(jcDel("np1", "past-expires"), f.second)), opGet("h1.test", "/a"))
 	}
+	// Expires and Max-Age in one Set-Cookie: Max-Age decides (RFC 6265 5.3), in either order
+	both := func(c jarCookie, expiresRel int, maxAgeFirst bool) jarCookie {
+		c.AlsoExpires, c.MaxAgeFirst = expiresRel, maxAgeFirst
+		return c
+	}
+	for _, first := range []bool{false, true} {
+		sfx := map[bool]string{false: "expires-first", true: "max-age-first"}[first]
+		run("expires-past-max-age-positive-"+sfx, opSet("SetByHost", "h1.test", jc("root")), opCycle("h1.test", "/", both(jcMaxAge("root", 5), -3, first)),
+			opGet("h1.test", "/"), opAdv(6), opGet("h1.test", "/"))
+		run("expires-future-max-age-zero-"+sfx, opSet("SetByHost", "h1.test", jc("root")), opCycle("h1.test", "/", both(jcDel("root", "max-age-0"), 6, first)), opGet("h1.test", "/"))
+		run("expires-future-max-age-shorter-"+sfx, opCycle("h1.test", "/", both(jcMaxAge("root", 2), 6, first)), opAdv(3), opGet("h1.test", "/"))
+		run("expires-past-max-age-zero-"+sfx, opSet("SetByHost", "h1.test", jc("root")), opCycle("h1.test", "/", both(jcDel("root", "max-age-0"), -3, first)), opGet("h1.test", "/"))
+	}
 	// sanity: these hold on a correct jar and on this one
 	run("sanity-expires", opSet("SetByHost", "h1.test", jcExp("root", 2)), opGet("h1.test", "/"), opAdv(3), opGet("h1.test", "/"))
 	run("sanity-hosts", opSet("SetByHost", "h1.test", jc("root")), opSet("SetKeyValue", "h2.test", jc("np1")),
